@@ -97,6 +97,8 @@ class EventLog:
 
 
 def _pool_init():
+  import gc
+  gc.freeze()   # keep the collector from touching (and COW-copying) inherited pages
   faulthandler.enable()
   sys.dont_write_bytecode = True
 
@@ -282,6 +284,34 @@ def merge_counts(dst, src):
 # continues in a new child with the next index.
 
 TIMEOUT = "__timeout__"
+
+
+def inprocess_runs(fn, indices, per_run_timeout=120):
+  """Like guarded_runs for pure-Python runs: no fork (forking a large
+  interpreter per chunk costs more than the chunk on this VM); a run that
+  exceeds its cap is interrupted by SIGALRM and recorded as TIMEOUT."""
+  import signal
+
+  class _Alarm(BaseException):
+    pass
+
+  def onalarm(signum, frame):
+    raise _Alarm()
+
+  old = signal.signal(signal.SIGALRM, onalarm)
+  try:
+    for i in indices:
+      signal.alarm(int(per_run_timeout))
+      try:
+        res = fn(i)
+      except _Alarm:
+        yield i, TIMEOUT
+        continue
+      finally:
+        signal.alarm(0)
+      yield i, res
+  finally:
+    signal.signal(signal.SIGALRM, old)
 
 
 def guarded_runs(fn, indices, per_run_timeout=30.0):
